@@ -1,3 +1,238 @@
-(* C13 — accepted definitions never compute an address outside their address type. *)
+(* C13 — Accepted definitions never compute an address outside their address type.
+
+   Model (coq/theories/Addr.v): [find_min_max_addresses] with its address_offsets stack / last_depth discipline
+   ([mm_walk]), [address_types_specified], [address_types_big_enough], [best_internal] (the bit-width formula of
+   find_best_internal_address), [gen_addr] = the emitted arithmetic `self.base_address + ADDR (+|-) index as IT *
+   |STRIDE|` evaluated left to right in the internal type with overflow checks on, then `as AT`.
+   Spec: [instances] / [i_addr] = addr_sem over every valid index tuple, [in_range].  [accepted] = every
+   address-related check of the pipeline passes. *)
 From Coq Require Import ZArith List Bool String.
 From DD Require Import Common Mir GenErr Addr AddrProofs.
+Import ListNotations.
+Open Scope Z_scope.
+
+(* THE FULL STATEMENT (false of the faithful model, see the five refutations below):
+
+   Theorem C13_full : forall fuel dev_name d l,
+     accepted false fuel dev_name d -> instances fuel (d_objects d) = Ok l ->
+     forall i, In i l ->
+       exists t it, address_type_of (d_config d) (i_kind i) = Some t /\ internal_type d = Ok it /\
+         in_range (integer_ity t) (i_addr i) = true /\
+         gen_addr true it (integer_ity t) (i_path i) = Ok (i_addr i).
+
+   What is proved instead: the statement for every UNTAGGED instance of ANY tree (C13_untagged_partial) — an
+   instance is tagged when it sits under a repeated block (D3), is reached through a block ref (D4), is a
+   register/command ref that keeps its target's address (D4b) or its repeated target's repeat (D4c) — hence for
+   every instance of a tree without those constructs (C13_partial); the no-overflow half under the side
+   condition "internal type unsigned, or the object's own (count-1)*|stride| fits the internal type" (D3b).
+   Missing: nothing else; each excluded class is refuted by a witness accepted by the real generator. *)
+
+Definition ex_cfg (r c b : option integer) : config :=
+  {| g_default_register_access := RW; g_default_field_access := RW; g_default_buffer_access := RW;
+     g_default_byte_order := None; g_default_bit_order := BiLSB0; g_register_address_type := r;
+     g_command_address_type := c; g_buffer_address_type := b; g_boundaries := []; g_defmt_feature := None |}.
+Definition ex_reg (n : string) (a : Z) (rep : option repeat) : object :=
+  ORegister {| rg_cfg := None; rg_name := n; rg_access := RW; rg_byte_order := None; rg_bit_order := BiLSB0;
+               rg_allow_bit_overlap := false; rg_allow_address_overlap := false; rg_address := a;
+               rg_size_bits := 8; rg_reset := None; rg_repeat := rep; rg_fields := [] |}.
+Definition ex_buf (n : string) (a : Z) : object :=
+  OBuffer {| bf_cfg := None; bf_name := n; bf_access := RW; bf_address := a |}.
+Definition u8 : ity := integer_ity IU8.
+Definition i8 : ity := integer_ity II8.
+
+(* D3: u8; block Blk { offset 0, repeat 3 x 100 } { register Inner @60 } is accepted; blk(2).inner() = 260:
+   overflow panic with checks on, bus address 4 without. *)
+Definition d3 : device :=
+  {| d_config := ex_cfg (Some IU8) None None;
+     d_objects := [OBlock None "Blk" 0 (Some {| r_count := 3; r_stride := 100 |}) [ex_reg "Inner" 60 None]] |}.
+
+Theorem C13_repeated_block_refuted :
+  exists d l i, accepted false 10 "Dev" d /\ instances 10 (d_objects d) = Ok l /\ In i l /\
+    c13_tags i = [TRepBlock] /\ i_kind i = KRegister /\ i_addr i = 260 /\ in_range u8 (i_addr i) = false /\
+    internal_type d = Ok u8 /\
+    gen_addr true u8 u8 (i_path i) = Fail Overflow /\ gen_addr false u8 u8 (i_path i) = Ok 4.
+Proof.
+  exists d3. eexists. eexists.
+  split; [vm_compute; reflexivity|]. split; [vm_compute; reflexivity|].
+  split; [right; right; left; reflexivity|]. vm_compute. repeat split; reflexivity.
+Qed.
+
+(* D4: u8; block A { register Inner @10 }, ref B = block A { ADDRESS_OFFSET = 250 } is accepted; 260 does not fit *)
+Definition d4 : device :=
+  {| d_config := ex_cfg (Some IU8) None None;
+     d_objects := [OBlock None "A" 0 None [ex_reg "Inner" 10 None]; ORef None "B" (OvBlock "A" (Some 250) None)] |}.
+
+Theorem C13_block_ref_refuted :
+  exists d l i, accepted false 10 "Dev" d /\ instances 10 (d_objects d) = Ok l /\ In i l /\
+    c13_tags i = [TBlockRef] /\ i_kind i = KRegister /\ i_addr i = 260 /\ in_range u8 (i_addr i) = false /\
+    gen_addr true u8 u8 (i_path i) = Fail Overflow.
+Proof.
+  exists d4. eexists. eexists.
+  split; [vm_compute; reflexivity|]. split; [vm_compute; reflexivity|].
+  split; [right; left; reflexivity|]. vm_compute. repeat split; reflexivity.
+Qed.
+
+(* D4b: u8; register X @10, block B { offset 250 } { ref Y = register X { Access = RO } } is accepted; b().y() = 260 *)
+Definition d4b : device :=
+  {| d_config := ex_cfg (Some IU8) None None;
+     d_objects := [ex_reg "X" 10 None;
+                   OBlock None "B" 250 None [ORef None "Y" (OvRegister "X" (Some RO) None false None None)]] |}.
+
+Theorem C13_ref_without_address_refuted :
+  exists d l i, accepted false 10 "Dev" d /\ instances 10 (d_objects d) = Ok l /\ In i l /\
+    c13_tags i = [TRefNoAddr] /\ i_kind i = KRegister /\ i_addr i = 260 /\ in_range u8 (i_addr i) = false /\
+    gen_addr true u8 u8 (i_path i) = Fail Overflow.
+Proof.
+  exists d4b. eexists. eexists.
+  split; [vm_compute; reflexivity|]. split; [vm_compute; reflexivity|].
+  split; [right; left; reflexivity|]. vm_compute. repeat split; reflexivity.
+Qed.
+
+(* D4c (found by this model): u8; register X @0 repeat 3 x 10, ref Y = register X { ADDRESS = 250 } is accepted;
+   the ref keeps its target's repeat: y(1) = 260, y(2) = 270 *)
+Definition d4c : device :=
+  {| d_config := ex_cfg (Some IU8) None None;
+     d_objects := [ex_reg "X" 0 (Some {| r_count := 3; r_stride := 10 |});
+                   ORef None "Y" (OvRegister "X" None (Some 250) false None None)] |}.
+
+Theorem C13_ref_keeps_repeat_refuted :
+  exists d l i, accepted false 10 "Dev" d /\ instances 10 (d_objects d) = Ok l /\ In i l /\
+    c13_tags i = [TRefKeepsRepeat] /\ i_kind i = KRegister /\ i_addr i = 270 /\ in_range u8 (i_addr i) = false /\
+    gen_addr true u8 u8 (i_path i) = Fail Overflow /\ gen_addr false u8 u8 (i_path i) = Ok 14.
+Proof.
+  exists d4c. eexists. eexists.
+  split; [vm_compute; reflexivity|]. split; [vm_compute; reflexivity|].
+  split; [do 5 right; left; reflexivity|]. vm_compute. repeat split; reflexivity.
+Qed.
+
+(* D3b: i8; register R @-100 repeat 3 x 100 is accepted and in the class of C13_partial; every final address
+   (-100, 0, 100) fits, the internal type is i8, and r(2) computes 2i8 * 100: overflow. *)
+Definition d3b : device :=
+  {| d_config := ex_cfg (Some II8) None None;
+     d_objects := [ex_reg "R" (-100) (Some {| r_count := 3; r_stride := 100 |})] |}.
+
+Theorem C13_signed_product_refuted :
+  exists d l i, accepted false 10 "Dev" d /\ simple_tree (d_objects d) = true /\
+    instances 10 (d_objects d) = Ok l /\ forallb (fun j => in_range i8 (i_addr j)) l = true /\ In i l /\
+    untagged i = true /\ i_addr i = 100 /\ internal_type d = Ok i8 /\
+    gen_addr true i8 i8 (i_path i) = Fail Overflow /\ gen_addr false i8 i8 (i_path i) = Ok 100 /\
+    ~ last_step_product_ok i8 (i_path i).
+Proof.
+  exists d3b. eexists. eexists.
+  split; [vm_compute; reflexivity|]. split; [vm_compute; reflexivity|]. split; [vm_compute; reflexivity|].
+  split; [vm_compute; reflexivity|].
+  split; [right; right; left; reflexivity|]. vm_compute. repeat split; try reflexivity. intros H; apply H; reflexivity.
+Qed.
+
+(* C13 for every untagged instance of ANY accepted tree: the kind's address type exists, the address fits
+   it, and — internal type unsigned or the object's own (count-1)*|stride| within the internal type — the
+   emitted arithmetic, overflow checks on, yields exactly that address. *)
+Theorem C13_untagged_partial : forall fx fuel dev_name d l,
+  accepted fx fuel dev_name d -> instances fuel (d_objects d) = Ok l ->
+  forall i, In i l -> untagged i = true ->
+    exists t it, address_type_of (d_config d) (i_kind i) = Some t /\ internal_type d = Ok it /\
+      in_range (integer_ity t) (i_addr i) = true /\
+      ((signed it = false \/ last_step_product_ok it (i_path i)) ->
+       gen_addr true it (integer_ity t) (i_path i) = Ok (i_addr i)).
+Proof. exact c13_untagged. Qed.
+
+(* Trees without repeated blocks, without block refs, whose register/command refs override the address (and
+   the repeat, when the target is repeated): the min/max walk of each kind bounds every reachable address of
+   that kind, hence accepted ==> every address fits; plus the no-intermediate-overflow statement. *)
+Theorem C13_partial : forall fx fuel dev_name d l,
+  simple_tree (d_objects d) = true -> accepted fx fuel dev_name d ->
+  instances fuel (d_objects d) = Ok l ->
+  forall i, In i l ->
+    fst (find_min_max_addresses (filter_kind (i_kind i)) (d_objects d)) <= i_addr i
+      <= snd (find_min_max_addresses (filter_kind (i_kind i)) (d_objects d)) /\
+    exists t it, address_type_of (d_config d) (i_kind i) = Some t /\ internal_type d = Ok it /\
+      in_range (integer_ity t) (i_addr i) = true /\
+      ((signed it = false \/ last_step_product_ok it (i_path i)) ->
+       gen_addr true it (integer_ity t) (i_path i) = Ok (i_addr i)).
+Proof. exact c13_partial. Qed.
+
+(* the stack walk (address_offsets / last_depth) computes what the natural recursion over the tree computes *)
+Theorem C13_walk_is_structural : forall filter objs,
+  filter_blocks filter -> find_min_max_addresses filter objs = mm_struct_list filter 0 objs (0, 0).
+Proof. exact walk_struct. Qed.
+
+(* the internal type chosen by the bit-width formula contains [min, max] (and is at least 8 bits wide) *)
+Theorem C13_internal_type_covers : forall mn mx it,
+  best_internal mn mx = Ok it -> mn <= 0 <= mx ->
+  8 <= bits it /\ signed it = (mn <? 0) /\ forall z, mn <= z <= mx -> in_range it z = true.
+Proof. exact best_internal_covers. Qed.
+
+(* "rejected with an error stating the offending bound" *)
+Theorem C13_error_states_bound : forall d k e,
+  big_enough_kind d k = Some e ->
+  exists t, address_type_of (d_config d) k = Some t /\
+    let mn := fst (find_min_max_addresses (filter_kind k) (d_objects d)) in
+    let mx := snd (find_min_max_addresses (filter_kind k) (d_objects d)) in
+    (mn < integer_min t /\
+     e = mk_err "address_too_low" [show_akind k; show_Z mn; show_integer t; show_Z (integer_min t)]) \/
+    (integer_max t < mx /\
+     e = mk_err "address_too_high" [show_akind k; show_Z mx; show_integer t; show_Z (integer_max t)]).
+Proof. exact big_enough_error. Qed.
+
+(* A missing address type for a used object kind is rejected — in full: any register / command / buffer
+   object anywhere in the tree (a ref's target is one) ... *)
+Theorem C13_missing_type_rejected : forall fx fuel dev_name d o k,
+  In o (preorder_objects (d_objects d)) -> object_kind o = Some k ->
+  address_type_of (d_config d) k = None ->
+  exists e, addr_check fx fuel dev_name d = Ok (Some e) /\ e_kind e = "no_address_type"%string.
+Proof. exact missing_type_not_accepted. Qed.
+
+(* ... in particular whenever the spec has an instance of that kind *)
+Theorem C13_missing_type_rejected_instances : forall d fuel l i,
+  instances fuel (d_objects d) = Ok l -> In i l -> address_types_specified d = None ->
+  exists t, address_type_of (d_config d) (i_kind i) = Some t.
+Proof. exact instance_type_specified. Qed.
+
+(* ---------------------------------------------------------------------------------------------- *)
+(* Non-vacuity *)
+
+(* blocks.md's offset 5 + 7 = 12 and refs.md's Foo @3 / Bar @5 with u8 types: accepted, in the class of
+   C13_partial, the emitted arithmetic yields 12 / 3 / 5 *)
+Definition book : device :=
+  {| d_config := ex_cfg (Some IU8) None (Some IU8);
+     d_objects := [OBlock None "Foo" 5 None [ex_buf "Bar" 7];
+                   ex_reg "Fooreg" 3 None; ORef None "Barref" (OvRegister "Fooreg" None (Some 5) false None None)] |}.
+
+Example C13_book_examples :
+  accepted false 10 "Dev" book /\ simple_tree (d_objects book) = true /\ internal_type book = Ok u8 /\
+  exists l, instances 10 (d_objects book) = Ok l /\ map i_addr l = [12; 3; 5] /\
+            map (fun i => gen_addr true u8 u8 (i_path i)) l = [Ok 12; Ok 3; Ok 5].
+Proof.
+  split; [vm_compute; reflexivity|]. split; [reflexivity|]. split; [vm_compute; reflexivity|].
+  eexists. split; [vm_compute; reflexivity|]. split; vm_compute; reflexivity.
+Qed.
+
+(* boundaries: u8 register @250 repeat 2 x 5 (255) accepted; x 6 (256) rejected stating the bound; a negative
+   stride reaching -1 rejected; i8 nested offsets -100 + -28 = -128 accepted, -129 rejected; a register
+   without a register address type rejected *)
+Example C13_boundaries :
+  let dev t objs := {| d_config := ex_cfg t None None; d_objects := objs |} in
+  addr_check false 10 "Dev" (dev (Some IU8) [ex_reg "R" 250 (Some {| r_count := 2; r_stride := 5 |})]) = Ok None /\
+  addr_check false 10 "Dev" (dev (Some IU8) [ex_reg "R" 250 (Some {| r_count := 2; r_stride := 6 |})])
+    = Ok (Some (mk_err "address_too_high" ["register"; "256"; "u8"; "255"]%string)) /\
+  addr_check false 10 "Dev" (dev (Some IU8) [ex_reg "R" 3 (Some {| r_count := 3; r_stride := -2 |})])
+    = Ok (Some (mk_err "address_too_low" ["register"; "-1"; "u8"; "0"]%string)) /\
+  addr_check false 10 "Dev" (dev (Some II8) [OBlock None "B" (-100) None [ex_reg "R" (-28) None]]) = Ok None /\
+  addr_check false 10 "Dev" (dev (Some II8) [OBlock None "B" (-100) None [ex_reg "R" (-29) None]])
+    = Ok (Some (mk_err "address_too_low" ["register"; "-129"; "i8"; "-128"]%string)) /\
+  addr_check false 10 "Dev" (dev None [OBlock None "B" 0 None [ex_reg "R" 1 None]])
+    = Ok (Some (mk_err "no_address_type" ["register"]%string)).
+Proof. vm_compute. repeat split; reflexivity. Qed.
+
+Print Assumptions C13_repeated_block_refuted.
+Print Assumptions C13_block_ref_refuted.
+Print Assumptions C13_ref_without_address_refuted.
+Print Assumptions C13_ref_keeps_repeat_refuted.
+Print Assumptions C13_signed_product_refuted.
+Print Assumptions C13_untagged_partial.
+Print Assumptions C13_partial.
+Print Assumptions C13_walk_is_structural.
+Print Assumptions C13_internal_type_covers.
+Print Assumptions C13_error_states_bound.
+Print Assumptions C13_missing_type_rejected.
+Print Assumptions C13_missing_type_rejected_instances.
